@@ -695,7 +695,8 @@ class SymbolTable():
                         f"that cannot be resolved by renaming "
                         f"one of the instances because:\n- {err1}\n- {err2}")
 
-    def _add_container_symbols_from_table(self, other_table):
+    def _add_container_symbols_from_table(self, other_table,
+                                          symbols_to_skip=()):
         '''
         Takes container symbols from the supplied symbol table and adds them to
         this table. All references to each container symbol are also updated.
@@ -705,9 +706,17 @@ class SymbolTable():
         :param other_table: the symbol table from which to take container
                             symbols.
         :type other_table: :py:class:`psyclone.psyir.symbols.SymbolTable`
+        :param symbols_to_skip: an optional list of symbols that are excluded
+                                from the merge (and were therefore not
+                                checked for clashes).
+        :type symbols_to_skip: Iterable[
+            :py:class:`psyclone.psyir.symbols.Symbol`]
 
         '''
         for csym in other_table.containersymbols:
+            if csym in symbols_to_skip:
+                # This symbol is not being merged.
+                continue
             if csym.name in self:
                 # We have a clash with another symbol in this table.
                 self_csym = self.lookup(csym.name)
@@ -733,6 +742,9 @@ class SymbolTable():
             # so that they point to the one in this table instead.
             imported_syms = other_table.symbols_imported_from(csym)
             for isym in imported_syms:
+                if isym in symbols_to_skip:
+                    # This symbol is not being merged.
+                    continue
                 if isym.name in self:
                     # We have a potential clash with a symbol imported
                     # into the other table.
@@ -867,7 +879,8 @@ class SymbolTable():
                 f"unresolvable name clashes.") from err
 
         # Deal with any Container symbols first.
-        self._add_container_symbols_from_table(other_table)
+        self._add_container_symbols_from_table(
+            other_table, symbols_to_skip=symbols_to_skip)
 
         # Copy each Symbol from the supplied table into this one, excluding
         # ContainerSymbols and any listed in `symbols_to_skip`.
